@@ -368,14 +368,24 @@ pub fn context_rule_broken(cx: Cx, g: &G, size: u64, sat: Option<(u64, u64, u64)
 }
 
 // ------------------------------------------------------------------ generator
-pub struct Gen<'a> { pub rng: Rng, pub keys: &'a KeyTable, next_key: usize, next_hash: u64 }
+pub struct Gen<'a> { pub rng: Rng, pub keys: &'a KeyTable, next_key: usize, next_hash: u64, variant: u64, sys: bool }
 
 pub const RECIPES: [&str; 24] = ["sane", "dupkey", "mixed", "malleable", "sigless", "rawpkh", "multi-flavour",
     "presegwit-ifs", "keykind", "thresh-range", "lock-range", "deep", "near-size", "near-ops", "near-wit", "near-stack",
     "multipath", "nonB", "unsat", "illtyped", "random", "legacy-size-edge", "bare-shape", "timelock-boundary"];
 
 impl<'a> Gen<'a> {
-    pub fn new(seed: u64, keys: &'a KeyTable) -> Self { Gen { rng: Rng(seed), keys, next_key: 0, next_hash: 1 } }
+    /// `round`: how many times this (context, recipe) pair was visited before; the first rounds walk
+    /// through the recipe's variants systematically (mixed radix), later rounds choose at random
+    pub fn new(seed: u64, round: u64, keys: &'a KeyTable) -> Self {
+        let mut rng = Rng(seed);
+        let next_key = rng.below(1000) as usize;
+        Gen { rng, keys, next_key, next_hash: 1, variant: round, sys: round < 36 }
+    }
+    fn choose(&mut self, n: u64) -> u64 {
+        if self.sys { let v = self.variant % n; self.variant /= n; v } else { self.rng.below(n) }
+    }
+    fn pick_sys<'b, T>(&mut self, v: &'b [T]) -> &'b T { let i = self.choose(v.len() as u64) as usize; &v[i] }
 
     /// a fresh key of the kind natural to the context
     pub fn fresh(&mut self, cx: Cx) -> Key {
@@ -504,7 +514,7 @@ impl<'a> Gen<'a> {
             "dupkey" => {
                 let g = self.gen_sane(cx, d);
                 let k = g.all_keys().first().map(|k| (*k).clone()).unwrap_or_else(|| self.fresh(cx));
-                match self.rng.below(3) {
+                match self.choose(3) {
                     0 => G::bin(K::AndV, G::pk(k).wrap("v"), g),
                     1 => G::bin(K::OrB, G::pk(k), g.wrap("a")),
                     _ => G::bin(K::AndB, g, G::pkh(k).wrap("a")),
@@ -512,7 +522,7 @@ impl<'a> Gen<'a> {
             }
             "mixed" => {
                 let k = self.fresh(cx);
-                match self.rng.below(5) {
+                match self.choose(5) {
                     0 => { let (a, b) = (self.height_lock(), self.time_lock()); self.and_chain(vec![G::pk(k), G::num(K::After, a), G::num(K::After, b)]) }
                     1 => { let (a, b) = (self.older_h(), self.older_t()); self.and_chain(vec![G::pk(k), G::num(K::Older, a), G::num(K::Older, b)]) }
                     2 => { let (a, b) = (self.older_h(), self.older_t());
@@ -526,7 +536,7 @@ impl<'a> Gen<'a> {
             }
             "malleable" => {
                 let (k1, k2) = (self.fresh(cx), self.fresh(cx));
-                match self.rng.below(4) {
+                match self.choose(4) {
                     0 => G::bin(K::OrB, self.some_hash(), self.some_hash().wrap("a")),           // two non-s, non-e branches
                     1 => G::bin(K::OrD, self.some_hash(), G::pk(k1)),                            // left not e
                     2 => G::tern(self.some_hash(), G::pk(k1), G::pk(k2)),                        // andor with non-e X
@@ -535,7 +545,7 @@ impl<'a> Gen<'a> {
             }
             "sigless" => {
                 let k = self.fresh(cx);
-                match self.rng.below(4) {
+                match self.choose(4) {
                     0 => { let n = self.older_h(); G::bin(K::OrD, G::pk(k), G::num(K::Older, n)) }
                     1 => self.some_hash(),
                     2 => { let n = self.height_lock(); G::bin(K::AndV, self.some_hash().wrap("v"), G::num(K::After, n)) }
@@ -545,18 +555,18 @@ impl<'a> Gen<'a> {
             "rawpkh" => {
                 let k = self.fresh(cx); self.next_hash += 1;
                 let raw = G::un(K::Check, G::num(K::RawPkH, self.next_hash));
-                match self.rng.below(3) { 0 => raw, 1 => G::bin(K::AndV, G::pk(k).wrap("v"), raw), _ => G::bin(K::OrD, G::pk(k), raw) }
+                match self.choose(3) { 0 => raw, 1 => G::bin(K::AndV, G::pk(k).wrap("v"), raw), _ => G::bin(K::OrD, G::pk(k), raw) }
             }
             "multi-flavour" => {
                 let n = 1 + self.rng.below(4) as usize; let kk = 1 + self.rng.below(n as u64);
                 let keys: Vec<Key> = (0..n).map(|_| self.fresh(cx)).collect();
-                let kind = *self.rng.pick(&[K::Multi, K::SortedMulti, K::MultiA, K::SortedMultiA]);
+                let kind = *self.pick_sys(&[K::Multi, K::SortedMulti, K::MultiA, K::SortedMultiA]);
                 let m = G::multi(kind, kk, keys);
                 if self.rng.chance(1, 2) { m } else { let k = self.fresh(cx); G::bin(K::AndV, G::pk(k).wrap("v"), m) }
             }
             "presegwit-ifs" => {
                 let (k1, k2) = (self.fresh(cx), self.fresh(cx));
-                match self.rng.below(4) {
+                match self.choose(4) {
                     0 => G::bin(K::OrI, G::pk(k1), G::pk(k2)),
                     1 => { let n = self.older_h(); G::bin(K::OrD, G::pk(k1), G::bin(K::AndV, G::pk(k2).wrap("v"), G::num(K::Older, n)).wrap("dv")) }
                     2 => G::pk(k1).wrap("u"),
@@ -564,20 +574,20 @@ impl<'a> Gen<'a> {
                 }
             }
             "keykind" => {
-                let kind = *self.rng.pick(&[KeyKind::Compressed, KeyKind::Uncompressed, KeyKind::XOnly]);
+                let kind = *self.pick_sys(&[KeyKind::Compressed, KeyKind::Uncompressed, KeyKind::XOnly]);
                 let bad = self.fresh_kind(kind); let good = self.fresh(cx);
-                match self.rng.below(6) {
+                match self.choose(6) {
                     0 => G::pk(bad),
-                    1 => G::pkh(bad),
-                    2 => { let g2 = self.fresh(cx); G::multi(if tapish { K::MultiA } else { K::Multi }, 1, vec![g2, bad]) }
-                    3 => G::bin(K::AndV, G::pk(good).wrap("v"), G::pkh(bad)),
-                    4 => G::bin(K::OrB, G::pk(good), G::pk(bad).wrap("s")),
+                    1 => { let g2 = self.fresh(cx); G::multi(if tapish { K::MultiA } else { K::Multi }, 1, vec![g2, bad]) }
+                    2 => G::pkh(bad),
+                    3 => G::bin(K::OrB, G::pk(good), G::pk(bad).wrap("s")),
+                    4 => G::bin(K::AndV, G::pk(good).wrap("v"), G::pkh(bad)),
                     _ => G::bin(K::AndV, G::pkh(bad).wrap("v"), G::pk(good)),
                 }
             }
             "thresh-range" => {
                 let k0 = self.fresh(cx);
-                match self.rng.below(8) {
+                match self.choose(8) {
                     0 => G::thresh(0, vec![G::pk(k0), G::pk(self.fresh(cx)).wrap("s")]),
                     1 => G::thresh(3, vec![G::pk(k0), G::pk(self.fresh(cx)).wrap("s")]),
                     2 => G::thresh(2, vec![G::pk(k0), G::pk(self.fresh(cx)).wrap("s")]),
@@ -590,14 +600,14 @@ impl<'a> Gen<'a> {
             }
             "lock-range" | "timelock-boundary" => {
                 let k = self.fresh(cx);
-                let vals: [u64; 14] = [0, 1, 2, 65535, 65536, 4194303, 4194304, 4194305, 499_999_999, 500_000_000, 500_000_001, (1 << 31) - 1, 1 << 31, (1 << 32) - 1];
-                let v = *self.rng.pick(&vals);
-                let kind = if self.rng.chance(1, 2) { K::After } else { K::Older };
+                let vals: [u64; 14] = [0, 1, (1 << 31) - 1, 1 << 31, 499_999_999, 500_000_000, 65535, 65536, 4194304, 4194305, (1 << 32) - 1, 2, 4194303, 500_000_001];
+                let v = *self.pick_sys(&vals);
+                let kind = if r == "lock-range" { K::After } else { K::Older };
                 G::bin(K::AndV, G::pk(k).wrap("v"), G::num(kind, v))
             }
             "deep" => {
                 let k = self.fresh(cx);
-                let n = *self.rng.pick(&[10u64, 100, 399, 400, 401, 402, 403]) as usize;
+                let n = *self.pick_sys(&[10u64, 100, 399, 400, 401, 402, 403]) as usize;
                 if self.rng.chance(1, 2) {
                     // n ZeroNotEqual wrappers over c:pk_k : height n + 1
                     G::pk(k).wrap(&"n".repeat(n))
@@ -610,8 +620,8 @@ impl<'a> Gen<'a> {
             }
             "near-size" => {
                 // and_v chain of v:pk / hashes up to a target size around the context's limits
-                let target = match cx { Cx::Legacy => *self.rng.pick(&[480u64, 515, 520, 521, 540]), Cx::Segwitv0 => *self.rng.pick(&[3550u64, 3599, 3600, 3601, 3650]),
-                                        Cx::Bare => 300, Cx::Tap => *self.rng.pick(&[3600u64, 5000]) };
+                let target = match cx { Cx::Legacy => *self.pick_sys(&[480u64, 515, 520, 521, 540]), Cx::Segwitv0 => *self.pick_sys(&[3550u64, 3599, 3600, 3601, 3650]),
+                                        Cx::Bare => 300, Cx::Tap => *self.pick_sys(&[3600u64, 5000]) };
                 let mut items = vec![];
                 let mut sz = 0u64;
                 loop {
@@ -638,28 +648,28 @@ impl<'a> Gen<'a> {
             }
             "near-ops" => {
                 // thresh(k, pk, s:pk ...) : 3 ops per extra key; around 201
-                let n = *self.rng.pick(&[60usize, 65, 66, 67, 68, 70]);
+                let n = *self.pick_sys(&[60usize, 65, 66, 67, 68, 70]);
                 let k0 = self.fresh(cx);
                 let mut subs = vec![G::pk(k0)];
                 for _ in 1..n { let k = self.fresh(cx); subs.push(G::pk(k).wrap("s")); }
                 G::thresh(1 + self.rng.below(n as u64), subs)
             }
             "near-wit" => {
-                let n = *self.rng.pick(&[97usize, 98, 99, 100, 101]);
+                let n = *self.pick_sys(&[97usize, 98, 99, 100, 101]);
                 let k0 = self.fresh(cx);
                 let mut subs = vec![G::pk(k0)];
                 for _ in 1..n { let k = self.fresh(cx); subs.push(G::pk(k).wrap("s")); }
                 G::thresh(n as u64 / 2, subs)
             }
             "near-stack" => {
-                if tapish { let n = *self.rng.pick(&[900usize, 990, 997, 998, 999]); let kk = 1 + self.rng.below(3); self.multi_for(cx, kk, n) }
+                if tapish { let n = *self.pick_sys(&[900usize, 990, 997, 998, 999]); let kk = 1 + self.rng.below(3); self.multi_for(cx, kk, n) }
                 else { let n = 20; self.multi_for(cx, 10, n) }
             }
             "multipath" => {
                 let a = self.fresh_kind(KeyKind::Xpub(2));
-                let nb = *self.rng.pick(&[1u32, 2, 3]); let b = self.fresh_kind(KeyKind::Xpub(nb));
-                let nc = *self.rng.pick(&[2u32, 3, 4]); let c = self.fresh_kind(KeyKind::Xpub(nc));
-                match self.rng.below(3) {
+                let nb = *self.pick_sys(&[1u32, 2, 3]); let b = self.fresh_kind(KeyKind::Xpub(nb));
+                let nc = *self.pick_sys(&[2u32, 3, 4]); let c = self.fresh_kind(KeyKind::Xpub(nc));
+                match self.choose(3) {
                     0 => G::bin(K::AndV, G::pk(a).wrap("v"), G::pk(b)),
                     1 => G::bin(K::OrB, G::pk(a), G::pkh(c).wrap("a")),
                     _ => G::multi(if tapish { K::MultiA } else { K::Multi }, 2, vec![a, b, c]),
@@ -667,14 +677,14 @@ impl<'a> Gen<'a> {
             }
             "nonB" => {
                 let k = self.fresh(cx);
-                match self.rng.below(6) {
+                match self.choose(6) {
                     0 => G::key(K::PkK, k), 1 => G::key(K::PkH, k), 2 => G::pk(k).wrap("v"), 3 => G::pk(k).wrap("a"), 4 => G::pk(k).wrap("s"),
                     _ => { let g = self.gen_sane(cx, 1); g.wrap("v") }
                 }
             }
             "unsat" => {
                 let k = self.fresh(cx);
-                match self.rng.below(4) {
+                match self.choose(4) {
                     0 => G::leaf(K::False),
                     1 => G::bin(K::AndV, G::pk(k).wrap("v"), G::leaf(K::False)),
                     2 => G::bin(K::AndB, G::pk(k), G::leaf(K::False).wrap("a")),
@@ -683,7 +693,7 @@ impl<'a> Gen<'a> {
             }
             "bare-shape" => {
                 let k = self.fresh(cx);
-                match self.rng.below(6) {
+                match self.choose(6) {
                     0 => G::pk(k), 1 => G::pkh(k),
                     2 => { let n = 1 + self.rng.below(4) as usize; self.multi_for(cx, 1, n) }
                     3 => { self.next_hash += 1; G::un(K::Check, G::num(K::RawPkH, self.next_hash)) }
@@ -693,7 +703,7 @@ impl<'a> Gen<'a> {
             }
             _ /* illtyped */ => {
                 let (k1, k2) = (self.fresh(cx), self.fresh(cx));
-                match self.rng.below(8) {
+                match self.choose(8) {
                     0 => G::bin(K::AndV, G::pk(k1), G::pk(k2)),
                     1 => G::bin(K::AndB, G::pk(k1), G::pk(k2)),
                     2 => G::bin(K::OrB, G::pk(k1), G::num(K::Older, 3).wrap("a")),
